@@ -142,6 +142,31 @@ func TestC17(t *testing.T) {
 			} else {
 				stale = false
 			}
+			// an earlier removal on the same provider object in the same scan (no refresh in between),
+			// possibly cut short by a failing terminate call: the provider has seen every accepted
+			// termination, so "current" is the desired capacity minus those
+			removedEarlier := int64(0)
+			if k := rapid.SampledFrom([]int{0, 0, 1, 2, 3}).Draw(rt, "earlierRemovals"); k > 0 && !stale && int64(len(c.asg.Instances)) >= int64(k) && desired-int64(k) >= min && desired > min {
+				var ns []*v1.Node
+				for _, id := range c.asg.Instances[:k] {
+					ns = append(ns, &v1.Node{ObjectMeta: metav1.ObjectMeta{Name: "node-" + id}, Spec: v1.NodeSpec{ProviderID: c.a.Instances[id].ProviderID()}})
+				}
+				if failAt := rapid.IntRange(0, k).Draw(rt, "earlierFailAt"); failAt < k {
+					c.j.Arm([]sim.Fault{{Kind: sim.ATerminateInASG, Nth: failAt}})
+				}
+				m0 := c.j.Mark()
+				callTarget(rt, "C17", "DeleteNodes (earlier)", func() { _ = c.ng.DeleteNodes(ns...) })
+				c.j.Disarm()
+				for _, e := range c.j.Since(m0) {
+					if e.Kind == sim.ATerminateInASG && e.OK() {
+						removedEarlier++
+					}
+				}
+				desired -= removedEarlier
+				if fleet {
+					max = max - 0
+				}
+			}
 			mark := c.j.Mark()
 			callTarget(rt, "C17", "IncreaseSize", func() { err = c.ng.IncreaseSize(d) })
 			es := c.j.Since(mark)
@@ -150,7 +175,7 @@ func TestC17(t *testing.T) {
 			dump := dumpPath()
 			desc := func() string {
 				var b strings.Builder
-				fmt.Fprintf(&b, "IncreaseSize(%d) on asg(min=%d cachedDesired=%d max=%d instances=%d) fleet=%v cfg=%+v stale=%v -> err=%v\n", d, min, desired, max, desired+instDelta, fleet, cfg.AWSConfig, stale, err)
+				fmt.Fprintf(&b, "IncreaseSize(%d) on asg(min=%d current=%d max=%d, %d removed earlier in the same scan) fleet=%v cfg=%+v stale=%v -> err=%v\n", d, min, desired, max, removedEarlier, fleet, cfg.AWSConfig, stale, err)
 				for _, e := range es {
 					fmt.Fprintf(&b, "  %s\n", e.String())
 				}
@@ -575,6 +600,24 @@ func TestC19Direct(t *testing.T) {
 				}
 				desired = c.asg.Desired
 				lingering = int64(len(c.asg.Instances)) - desired
+			}
+			// an earlier batch on the same provider object in the same scan, cut short by a failing
+			// terminate call, and no refresh afterwards
+			if warm == "" && rapid.IntRange(0, 3).Draw(rt, "earlierPartialBatch") == 0 && len(c.asg.Instances) >= 3 && desired-3 >= min {
+				var ns []*v1.Node
+				for _, id := range c.asg.Instances[:3] {
+					ns = append(ns, nodeFor(c.a.Instances[id], "earlier-"+id))
+				}
+				c.j.Arm([]sim.Fault{{Kind: sim.ATerminateInASG, Nth: rapid.IntRange(1, 2).Draw(rt, "earlierFailAt")}})
+				m0 := c.j.Mark()
+				callTarget(rt, "C19", "DeleteNodes (earlier, partial)", func() { _ = c.ng.DeleteNodes(ns...) })
+				c.j.Disarm()
+				for _, e := range c.j.Since(m0) {
+					if e.Kind == sim.ATerminateInASG && e.OK() {
+						desired--
+					}
+				}
+				warm = "partial-batch"
 			}
 			members := append([]string{}, c.asg.Instances...)
 			n := rapid.IntRange(0, 6).Draw(rt, "nodes")
